@@ -9,7 +9,9 @@ package main
 //   labels   n.v,n.v            (`-` = none)
 //   chunk    mint.maxt.id       chunks joined by `,` (`-` = none); the chunk holds samples (mint,id) and (maxt,id)
 //   series   <labels>^<chunks>  series joined by `;` (`-` = none)
-//   block    <extlabels>@<mint>@<maxt>@<series>      blocks joined by `/`
+//   block    <extlabels>@<mint>@<maxt>@<series>[@<resolution>]      blocks joined by `/`; resolution 300000 / 3600000 =
+//            a downsampled block: every chunk is an AggrChunk of five XOR sub-chunks (count, sum, min, max, counter) whose
+//            samples carry id, 2·id, … 5·id
 //   matcher  type.name.patternhex.vals   type 0 =, 1 !=, 2 =~, 3 !~; vals = accepted value ranks joined by `+`
 //            (`_` = none) — the truth table of the real matcher over valueTab; matchers joined by `,` (`-` = none)
 //   without  name ranks joined by `,` (`-` = none)
@@ -39,6 +41,7 @@ import (
 
 	"github.com/thanos-io/thanos/pkg/block"
 	"github.com/thanos-io/thanos/pkg/block/metadata"
+	"github.com/thanos-io/thanos/pkg/compact/downsample"
 	"github.com/thanos-io/thanos/pkg/component"
 	"github.com/thanos-io/thanos/pkg/store"
 	storecache "github.com/thanos-io/thanos/pkg/store/cache"
@@ -74,6 +77,7 @@ type specBlock struct {
 	ext        []specLabel
 	mint, maxt int64
 	series     []specSeries
+	res        int64 // downsampling resolution (0 raw)
 }
 
 type specMatcher struct {
@@ -120,6 +124,9 @@ func showBlocks(bs []specBlock) string {
 			ss[j] = showLabels(s.lset) + "^" + hlib.Join(cs, ",")
 		}
 		out[i] = fmt.Sprintf("%s@%d@%d@%s", showLabels(b.ext), b.mint, b.maxt, hlib.Join(ss, ";"))
+		if b.res != 0 {
+			out[i] += fmt.Sprintf("@%d", b.res)
+		}
 	}
 	return hlib.Join(out, "/")
 }
@@ -128,11 +135,16 @@ func parseBlocks(s string) ([]specBlock, error) {
 	var out []specBlock
 	for _, bt := range hlib.Split(s, "/") {
 		f := strings.Split(bt, "@")
-		if len(f) != 4 {
+		if len(f) != 4 && len(f) != 5 {
 			return nil, fmt.Errorf("bad block %q", bt)
 		}
 		var b specBlock
 		var err error
+		if len(f) == 5 {
+			if b.res, err = strconv.ParseInt(f[4], 10, 64); err != nil {
+				return nil, err
+			}
+		}
 		if b.ext, err = parseLabels(f[0]); err != nil {
 			return nil, err
 		}
@@ -281,14 +293,26 @@ func parseNames(s string) ([]string, error) {
 
 // ---------------------------------------------------------------- writing blocks
 
-func chunkFor(c specChunk) chunkenc.Chunk {
+func xorFor(c specChunk, mult int) chunkenc.Chunk {
 	ch := chunkenc.NewXORChunk()
 	app, _ := ch.Appender()
-	app.Append(c.mint, float64(c.id))
+	app.Append(c.mint, float64(c.id*mult))
 	if c.maxt > c.mint {
-		app.Append(c.maxt, float64(c.id))
+		app.Append(c.maxt, float64(c.id*mult))
 	}
 	return ch
+}
+
+// chunkFor: an XOR chunk in a raw block, an AggrChunk with all five aggregates in a downsampled one.
+func chunkFor(c specChunk, res int64) chunkenc.Chunk {
+	if res == 0 {
+		return xorFor(c, 1)
+	}
+	var subs [5]chunkenc.Chunk
+	for i := range subs {
+		subs[i] = xorFor(c, i+1)
+	}
+	return downsample.EncodeAggrChunk(subs)
 }
 
 // chunkID recovers the id from chunk bytes returned by a store.
@@ -312,6 +336,8 @@ func chunkID(enc storepb.Chunk_Encoding, data []byte) (id int) {
 	_, v := it.At()
 	return int(v)
 }
+
+var aggrNames = []string{"count", "sum", "min", "max", "counter"}
 
 func blockULID(i int) ulid.ULID {
 	var e [10]byte
@@ -365,8 +391,8 @@ func writeBlock(dir string, id ulid.ULID, b specBlock) (string, error) {
 	for i, s := range sers {
 		metas := make([]chunks.Meta, len(s.chunks))
 		for k, c := range s.chunks {
-			metas[k] = chunks.Meta{MinTime: c.mint, MaxTime: c.maxt, Chunk: chunkFor(c)}
-			stats.NumSamples += uint64(metas[k].Chunk.NumSamples())
+			metas[k] = chunks.Meta{MinTime: c.mint, MaxTime: c.maxt, Chunk: chunkFor(c, b.res)}
+			stats.NumSamples += 2
 		}
 		if err := cw.WriteChunks(metas...); err != nil {
 			return "", err
@@ -390,7 +416,7 @@ func writeBlock(dir string, id ulid.ULID, b specBlock) (string, error) {
 		},
 		Thanos: metadata.Thanos{
 			Labels:     promLabels(b.ext).Map(),
-			Downsample: metadata.ThanosDownsample{Resolution: 0},
+			Downsample: metadata.ThanosDownsample{Resolution: b.res},
 			Source:     metadata.TestSource,
 			IndexStats: metadata.IndexStats{SeriesMaxSize: 512},
 		},
@@ -427,6 +453,10 @@ type bucketCfg struct {
 	maxSeries   uint64 // estimated max series size of the blocks (0 = the store's default, 64 KiB); small values
 	// make lazy posting expansion kick in and series be re-fetched
 	maxChunk uint64 // estimated max chunk size (0 = default, 16000): small values make chunks be re-fetched
+	// request level (not part of the store instance): MaxResolutionWindow and the aggregates asked for
+	// (bit i = storepb.Aggr i+1: count, sum, min, max, counter)
+	maxRes uint64
+	aggrs  uint64
 }
 
 func defaultBucketCfg() bucketCfg {
@@ -438,13 +468,13 @@ func (c bucketCfg) String() string {
 	if c.lazy {
 		l = 1
 	}
-	return fmt.Sprintf("l%d+b%d+s%d+c%d+g%d+m%d+k%d+sl%d+cl%d", l, c.batch, c.sampling, c.cache, c.gap, c.maxSeries, c.maxChunk, c.seriesLimit, c.chunksLimit)
+	return fmt.Sprintf("l%d+b%d+s%d+c%d+g%d+m%d+k%d+sl%d+cl%d+x%d+a%d", l, c.batch, c.sampling, c.cache, c.gap, c.maxSeries, c.maxChunk, c.seriesLimit, c.chunksLimit, c.maxRes, c.aggrs)
 }
 
 // storeKey identifies a BucketStore instance: the limits are not part of it (the limiter factories read them
 // from the built store at request time, so one instance serves every pair of limits).
 func (c bucketCfg) storeKey() string {
-	c.seriesLimit, c.chunksLimit = 0, 0
+	c.seriesLimit, c.chunksLimit, c.maxRes, c.aggrs = 0, 0, 0, 0
 	return c.String()
 }
 
@@ -480,6 +510,10 @@ func parseBucketCfg(s string) (bucketCfg, error) {
 			c.maxSeries = val
 		case "k":
 			c.maxChunk = val
+		case "x":
+			c.maxRes = val
+		case "a":
+			c.aggrs = val
 		case "sl":
 			c.seriesLimit = val
 		case "cl":
@@ -602,7 +636,7 @@ func getBuilt(tok string) (rb *built, rerr error) {
 			return nil, fmt.Errorf("write block %d: %w", i, err)
 		}
 		b.bdirs = append(b.bdirs, bdir)
-		ob, err := tsdb.OpenBlock(nil, bdir, nil, nil)
+		ob, err := tsdb.OpenBlock(nil, bdir, downsample.NewPool(), nil)
 		if err != nil {
 			b.close()
 			return nil, fmt.Errorf("open block %d: %w", i, err)
@@ -702,7 +736,8 @@ type respChunk struct {
 	id         int
 	size       int
 	enc        storepb.Chunk_Encoding
-	data       string // copy of the raw chunk bytes
+	data       string            // copy of the raw chunk bytes
+	aggr       map[string]string // aggregated chunk: copies of the aggregates that came back, by name
 }
 
 func (s *seriesServer) Context() context.Context { return s.ctx }
@@ -714,6 +749,18 @@ func (s *seriesServer) add(sr *storepb.Series) {
 		if c.Raw != nil {
 			rc.id = chunkID(c.Raw.Type, c.Raw.Data)
 			rc.enc, rc.data = c.Raw.Type, string(c.Raw.Data)
+		}
+		for i, a := range []*storepb.Chunk{c.Count, c.Sum, c.Min, c.Max, c.Counter} {
+			if a == nil {
+				continue
+			}
+			if rc.aggr == nil {
+				rc.aggr = map[string]string{}
+			}
+			rc.aggr[aggrNames[i]] = string(a.Data)
+			if id := chunkID(a.Type, a.Data); id > 0 && rc.id < 0 {
+				rc.id = id / (i + 1)
+			}
 		}
 		f.chunks = append(f.chunks, rc)
 	}
